@@ -47,8 +47,10 @@ class EEMSRead(Command):
             variable = dataset[variable_name]
             data = variable[:]
 
-        if self.get_argument_value("DataType", "Float") in ("Positive Integer", "Positive Float") and data.min() < 0:
-            raise InvalidPositiveData(path, kwargs["DataType"], lineno=self.lineno)
+        data_type_name = self.get_argument_value("DataType", "Float")
+
+        if data_type_name in ("Positive Integer", "Positive Float") and data.min() < 0:
+            raise InvalidPositiveData(path, data_type_name, lineno=self.lineno)
 
         if numpy.issubdtype(data.dtype, numpy.float64) and data_type in (
             int,
@@ -63,7 +65,7 @@ class EEMSRead(Command):
             fill_value=999999 if data_type in (int, numpy.uint) else None,
         )
 
-        if kwargs.get("DataType", "Float") == "Fuzzy":
+        if data_type_name == "Fuzzy":
             fuzzy_pad = 0.01 * (FUZZY_MAX - FUZZY_MIN)
 
             if data.max() > FUZZY_MAX + fuzzy_pad or data.min() < FUZZY_MIN - fuzzy_pad:
